@@ -258,6 +258,9 @@ def e1_reuse(ctx):
     tlc_mc(ctx, "Reuse", "MC_Reuse_dev_DrainPrealloc.cfg", workers=4, expect_violation="FirstRight")
     if not ctx.quick:
         tlc_mc(ctx, "Reuse", "MC_Reuse_dev_NilOnlyEmptyCheck.cfg", workers=4, expect_violation="IterRight")
+        tlc_mc(ctx, "Reuse", "MC_Reuse_dev_InitKeepsOneHit.cfg", workers=4, expect_violation="CountRight")
+        tlc_mc(ctx, "Reuse", "MC_Reuse_dev_EmptyShortcutIgnoresOneHit.cfg", workers=4, expect_violation="IterRight")
+        tlc_mc(ctx, "Reuse", "MC_Reuse_dev_RecycleSharedEmpty.cfg", workers=4, expect_violation="SharedStaysEmpty")
 
 
 def e1_writer_crc(ctx):
